@@ -193,13 +193,16 @@ CHECKS = {
         text=("Model (Model/Json.lean): toJson for every class (incl. Imply's re-negated condition, Xor/XNor/cc.Any/cc.Xor/"
               "StingyConfigurator shapes) and toAst (the constructor call from_json makes, for the plog and the configurator "
               "class maps). Theorems (Props/C16.lean): frag_roundtrip — for the fragment variable / AtLeast with any legal sign "
-              "and value / AtMost / Any, nested arbitrarily, from_json(to_json(t)) builds a model that evaluates like t on every "
-              "assignment (uses sgnOf_signJ: the sign written only when it differs from the default reads back as the sign); "
+              "and value / AtMost / Any / All / Xor / ExactlyOne, nested arbitrarily, from_json(to_json(t)) builds a model that "
+              "evaluates like t on every assignment (sgnOf_signJ: the sign written only when it differs from the default reads "
+              "back as the sign; All re-derives its value from the number of distinct children, which needs the children to "
+              "stay pairwise distinct after the round trip — DistinctRT, the hypothesis that fails exactly on known finding "
+              "F16f; Xor is rebuilt from the propositions of one half); "
               "id_written_iff — for every class an explicitly given id is written and a generated one is not. Tie: to_json "
               "(through json.dumps/loads) and from_json compared with the model for every class incl. configurators; oracle: "
               "leaves and bounds, evaluation on assignments, explicit ids kept, no id emitted for generated ones, defaults and "
               "default priorities on named ids."),
-        note="PARTIAL at the theorem level: All, Xor, ExactlyOne, XNor, Imply, Not and the configurator classes are covered by the correspondence and the oracle, not by a theorem. Findings F16a-F16e were found by this check and repaired (five fix: commits).",
+        note="PARTIAL at the theorem level: XNor, Imply, Not and the configurator classes are covered by the correspondence and the oracle, not by a theorem. Findings F16a-F16e were found by this check and repaired (five fix: commits). KNOWN FINDING F16f (not repaired, known_findings.json): siblings that differ only in the sign argument as passed get different generated ids but equal JSON, collapse after the round trip and change the value of an enclosing All — found while extending the theorem to All; the check prints KNOWN-FINDING for it and still reports every other round-trip failure.",
         technique="Lean 4 theorem (mutual induction over the fragment) + differential correspondence (both directions) + round-trip oracle",
         ref="§4 C16"),
     "C17": dict(
